@@ -873,6 +873,8 @@ class Lower:
                 return f"({s}.{m} {f})", "B"
             if m == "rev" and not args:
                 return f"{s}.reverse", t
+            if m == "enumerate" and not args:
+                return f"(enumerateL {s})", ("list", ("tup", ["N", et]))
             if m == "sum" and not args and et == "S":
                 return f"({s}.foldl (fun a b => a + b) (0 : α))", "S"
             if m == "fold" and len(args) == 2:
